@@ -132,6 +132,9 @@ pub struct World {
     pub probe_budget: usize,
     pub n_templates: u64,
     pub probe_rng: Rng,
+    /// (number, epoch number, hash) of every block that was detached from the main chain (uncle candidates)
+    pub detached_log: Vec<(u64, u64, Byte32)>,
+    pub n_boundary_templates: u64,
 }
 
 fn lock_variant(v: u8) -> ckb_types::packed::Script {
@@ -171,7 +174,7 @@ impl World {
         let mut w = World {
             scn: scn.clone(), c, node, prefix: prefix.to_string(), outs, txs: vec![], tx_by_hash: HashMap::new(), tx_by_short: HashMap::new(),
             blocks: vec![], blk_by_hash: HashMap::new(), chain: vec![], events: vec![], now: ckb_systemtime::unix_time_as_millis(),
-            last_dump: None, salt: 0, expiry_ms: HOUR_MS, tmp_before, pool_names: vec![], stopped: false, stop_reason: None, probe_templates: false, probe_budget: 0, n_templates: 0, probe_rng: Rng::new(77),
+            last_dump: None, salt: 0, expiry_ms: HOUR_MS, tmp_before, pool_names: vec![], stopped: false, stop_reason: None, probe_templates: false, probe_budget: 0, n_templates: 0, probe_rng: Rng::new(77), detached_log: vec![], n_boundary_templates: 0,
         };
         w.events.push(json!({"ev": "Reset", "conf": w.conf_json()}));
         w
@@ -234,6 +237,53 @@ impl World {
         let size = view.data().serialized_size_in_block() as u64;
         self.txs.push(TxRec { name, view, ins: ins.to_vec(), deps: deps.to_vec(), hdeps: hdeps.to_vec(), outs: out_ids, fee, size, cycles: 0 });
         Some(idx)
+    }
+
+    /// Forget the transaction created last (it must not have been submitted).
+    pub fn pop_last_tx(&mut self) {
+        if let Some(t) = self.txs.pop() {
+            if let Some(&first) = t.outs.first() {
+                self.outs.truncate(first);
+            }
+            self.tx_by_hash.remove(&t.view.hash());
+            self.tx_by_short.remove(&t.view.proposal_short_id());
+        }
+    }
+
+    /// A replacement candidate spending `ins` whose fee sits exactly `delta` shannons off the RBF boundary
+    /// `base_sum + min_rbf_rate * size / 1000` (size = its own serialized size; built twice with the same shape).
+    pub fn new_tx_rbf(&mut self, ins: &[usize], n_out: usize, base_sum: u64, delta: i64) -> Option<usize> {
+        let probe = self.new_tx(ins, &[], &[], n_out, base_sum, &mut Rng::new(4242))?;
+        let size = self.txs[probe].size;
+        self.pop_last_tx();
+        let fee = (base_sum + MIN_RBF_RATE * size / 1000) as i64 + delta;
+        self.new_tx(ins, &[], &[], n_out, fee as u64, &mut Rng::new(4242))
+    }
+
+    /// Pooled descendants of pooled transaction `t` (spend or dep one of the family's outputs, or spend a cell a family
+    /// member uses as a dep) - the harness' own recomputation, used only to aim directed scenarios.
+    pub fn pool_descendants(&self, t: usize) -> Vec<usize> {
+        let pooled = self.pooled();
+        let mut fam = vec![t];
+        loop {
+            let mut grew = false;
+            for &c in &pooled {
+                if fam.contains(&c) {
+                    continue;
+                }
+                let uses = |o: &usize| self.outs[*o].creator.map(|p| fam.contains(&p)).unwrap_or(false);
+                let cellref = self.txs[c].ins.iter().any(|i| fam.iter().any(|&p| self.txs[p].deps.contains(i)));
+                if self.txs[c].ins.iter().any(uses) || self.txs[c].deps.iter().any(uses) || cellref {
+                    fam.push(c);
+                    grew = true;
+                }
+            }
+            if !grew {
+                break;
+            }
+        }
+        fam.remove(0);
+        fam
     }
 
     pub fn tx_name(&self, h: &Byte32) -> String {
@@ -513,10 +563,16 @@ impl World {
         let props: Vec<String> = blk.data().proposals().into_iter().map(|id| self.tx_by_short.get(&id).map(|&i| self.txs[i].name.clone()).unwrap_or("?".into())).collect();
         let pname = if parent == self.c.genesis_hash() { "genesis".to_string() } else { self.blocks[self.blk_by_hash[&parent]].name.clone() };
         let verdict = if verdict == "ok" && !on_tip { "accepted-but-not-tip".to_string() } else { verdict };
+        // named case: uncle candidates of the previous epoch are alive while the template opens / continues a new epoch
+        let snap = self.node.shared.snapshot();
+        let boundary = self.detached_log.iter().any(|(n, e, h)| e + 1 == blk.epoch().number() && blk.number() - n <= 6 && !snap.is_main_chain(h));
+        if boundary {
+            self.n_boundary_templates += 1;
+        }
         self.events.push(json!({"ev": "Template", "moment": moment, "parent": pname, "txs": txs, "props": props, "uncles": blk.uncles().data().len(),
             "judge": verdict, "bytes": blk.data().serialized_size_without_uncle_proposals(), "cycles": cycles,
             "maxBytes": self.c.max_block_bytes(), "maxCycles": self.c.max_block_cycles(), "maxProps": self.c.max_block_proposals_limit(),
-            "settled": settled, "bad": bad}));
+            "settled": settled, "boundary": boundary, "epoch": blk.epoch().number(), "bad": bad}));
     }
 
     pub fn pooled(&self) -> Vec<usize> {
@@ -611,6 +667,10 @@ impl World {
             return Ok((0, 0));
         }
         let old_tail: Vec<usize> = self.chain[keep..].to_vec();
+        for &i in &old_tail {
+            let v = &self.blocks[i].view;
+            self.detached_log.push((v.number(), v.epoch().number(), v.hash()));
+        }
         self.chain.truncate(keep);
         self.chain.extend(attached.iter().cloned());
         let att: Vec<Value> = attached.iter().map(|&i| self.blk_json(i)).collect();
